@@ -11,6 +11,8 @@ PROPERTY_PROFILE = {
     "C03": "ctx",
     "C04": "dml",
     "C07": "fail",
+    "C14": "connect",
+    "C15": "vars",
 }
 
 
